@@ -15,26 +15,33 @@
             per item the event it stands for and the ResourceIds behind its `objects` and
             `snapshots` elements, and the file.
 
+     CWin   a hook with one kubernetes binding whose events are still LOCKED when the deliveries begin
+            (C09_WinModel): deliveries, runs of the Synchronization hook and the unlock in the order the
+            driver chose, and every file the real KubeEventsManager + HookController + rendering produced,
+            with jq's answer for the object an Event file shows.
+
    The model is evaluated THROUGH jq.ApplyFilter's copy (C09_Model, last part): every object of a
    case is deep-copied, the jq oracle of the case ([asked]: the answer of /usr/bin/jq for the object
    as it was created in the cluster / handed to applyFilter) is asked about the copy.  The Spec
    predicates judge the case as it is: the oracle's answer for that very object.
 
    Evaluated by vm_compute in the generated cases files. *)
-From Verif Require Import Common Json C09_Model C09_Spec.
+From Verif Require Import Common Json C09_Model C09_Spec C09_WinModel C09_WinSpec.
 
 Inductive case :=
 | CList (v : version) (cs : list ctx) (out : option json)
 | CFlow (f : flow) (obs : option (list fobs))
-| CHook (hc : hcase) (obs : option hobs).
+| CHook (hc : hcase) (obs : option hobs)
+| CWin (w : win) (obs : option (list wfile)).
 
-Inductive mobs := MList (out : option json) | MFlow (files : list fobs) | MHook (o : hobs).
+Inductive mobs := MList (out : option json) | MFlow (files : list fobs) | MHook (o : hobs) | MWin (files : list wfile).
 
 Definition model_obs (c : case) : mobs :=
   match c with
   | CList v cs _ => MList (render_list v (map ctx_run cs))
   | CFlow f _ => MFlow (run_flow (flow_run f))
   | CHook hc _ => MHook (run_hook (hcase_run hc))
+  | CWin w _ => MWin (run_win (win_via w))
   end.
 
 Definition ids_eqb : list bytes -> list bytes -> bool := list_eqb bytes_eqb.
@@ -44,6 +51,11 @@ Definition fobs_eqb (a b : fobs) : bool :=
   && ids_eqb (fo_ids a) (fo_ids b)
   && list_eqb (pair_eqb bytes_eqb ids_eqb) (fo_snaps a) (fo_snaps b)
   && option_eqb json_eqb (fo_out a) (fo_out b).
+
+Definition wfile_eqb (a b : wfile) : bool :=
+  Bool.eqb (wf_sync a) (wf_sync b)
+  && option_eqb (list_eqb json_eqb) (wf_rejq a) (wf_rejq b)
+  && fobs_eqb (wf_file a) (wf_file b).
 
 Definition hitem_eqb (a b : hitem) : bool :=
   N.eqb (hi_ev a) (hi_ev b)
@@ -61,6 +73,7 @@ Definition canonical (c : case) : bool :=
   | CList _ cs _ => forallb ctx_canon cs
   | CFlow f _ => flow_canon f
   | CHook hc _ => hcase_canon hc
+  | CWin w _ => win_canon w
   end.
 
 Definition agrees (c : case) : bool :=
@@ -71,6 +84,8 @@ Definition agrees (c : case) : bool :=
   | CFlow f None => false
   | CHook hc (Some o) => hobs_eqb (run_hook (hcase_run hc)) o
   | CHook hc None => false
+  | CWin w (Some files) => list_eqb wfile_eqb (run_win (win_via w)) files
+  | CWin w None => false
   end.
 
 
@@ -79,6 +94,7 @@ Definition holds (c : case) : bool :=
   | CList v cs out => P v cs out
   | CFlow f obs => P_flow f obs
   | CHook hc obs => P_hook hc obs
+  | CWin w obs => P_win w obs
   end.
 
 Definition triggered (c : case) : bool :=
@@ -86,6 +102,7 @@ Definition triggered (c : case) : bool :=
   | CList v cs _ => T v cs
   | CFlow f _ => T_flow f
   | CHook hc _ => T_hook hc
+  | CWin w _ => T_win w
   end.
 
 Definition mismatches (cs : list case) : list N := indices_where (fun c => negb (agrees c)) cs.
